@@ -11,12 +11,12 @@ Definition declared_bounds (no_deps : bool) (s : sig) : list toks :=
   | DGeneric None b => b
   | DGeneric (Some name) _ =>
       flat_map (fun p => match gp_kind p with
-                         | GType => if String.eqb (gp_name p) name then gp_bounds p else []
+                         | GType => if String.eqb (gp_name p) name then trait_bounds (gp_bounds p) else []
                          | _ => []
                          end) (p_items (g_params (s_gen s))) ++
       flat_map (fun w => if wp_is_type w then
                            match wp_bounded w with
-                           | BPath false false 1 first => if String.eqb first name then wp_bounds w else []
+                           | BPath false false 1 first => if String.eqb first name then trait_bounds (wp_bounds w) else []
                            | _ => []
                            end
                          else []) (where_items (s_gen s))
